@@ -297,11 +297,16 @@ func ExtractGroupByFieldsFromSeriesId(seriesId string, groupByFields []string) (
 	var groupKeyValuePairs []string
 	var values []string
 	for _, field := range groupByFields {
-		start := strings.Index(seriesId, field+":")
+		// The key must start right after the "{" or a ","; otherwise a label whose name ends with
+		// this field name (e.g. "jobname" for field "name") would be matched.
+		start := strings.Index(seriesId, "{"+field+":")
+		if start == -1 {
+			start = strings.Index(seriesId, ","+field+":")
+		}
 		if start == -1 {
 			continue
 		}
-		start += len(field) + 1 // +1 to skip the ':'
+		start += len(field) + 2 // +2 to skip the leading delimiter and the ':'
 		end := strings.Index(seriesId[start:], ",")
 		if end == -1 {
 			end = len(seriesId)
